@@ -1,0 +1,12 @@
+# Verification support: no-op yield points that a test harness can use to
+# interleave threads deterministically. Only consulted when the environment
+# variable STACKSCOPE_VERIF is set at import time; see the modules that
+# import this one.
+
+callback = None
+
+
+def hook(name, *args):
+    cb = callback
+    if cb is not None:
+        cb(name, *args)
